@@ -1,13 +1,13 @@
 (* C03 — game state bookkeeping follows the rules along any game. *)
 From Coq Require Import NArith List Bool.
 Import ListNotations.
-From RCE Require Import lib.Bits lib.Geometry model.Board model.Movegen model.Wf model.WfFull model.Abs
+From RCE Require Import lib.Bits lib.Geometry model.Board model.Movegen model.Wf model.WfFull model.Abs model.Play
   spec.Rules proofs.RulesProofs.
 
 (* one move: placement, side to move, the four castling rights, the en-passant file, the half-move
    clock and the full-move number after make_move are exactly those of the rules *)
 Theorem C03_step : forall b m,
-  wf_full b = true -> In m (get_legal_moves b) ->
+  wf_rules b = true -> In m (get_legal_moves b) ->
   (Board.fullmove b < 65535)%N -> (halfmove_clock b < 65535)%N ->
   abs (make_move b m) = apply (abs b) (move_of m).
 Proof. exact step_refines. Qed.
@@ -15,23 +15,17 @@ Proof. exact step_refines. Qed.
 (* well-formedness (incl. rights only with king and rook at home, en-passant file only behind a
    just-advanced pawn, mover not left in check) is preserved by every legal move *)
 Theorem C03_wf_step : forall b m,
-  wf_full b = true -> In m (get_legal_moves b) -> wf_full (make_move b m) = true.
-Proof. exact wf_full_step. Qed.
+  wf_rules b = true -> In m (get_legal_moves b) -> wf_rules (make_move b m) = true.
+Proof. exact wf_rules_step. Qed.
 
 (* any game of any length: fold of make_move refines fold of apply *)
-Fixpoint play_plies (b : Board) (ms : list Ply) : Board :=
-  match ms with [] => b | m :: t => play_plies (make_move b m) t end.
-Fixpoint legal_game (b : Board) (ms : list Ply) : Prop :=
-  match ms with [] => True | m :: t => In m (get_legal_moves b) /\ legal_game (make_move b m) t end.
 Theorem C03_game : forall ms b,
-  wf_full b = true -> legal_game b ms ->
+  wf_rules b = true -> legal_game b ms ->
   (Board.fullmove b + N.of_nat (length ms) < 65535)%N -> (halfmove_clock b + N.of_nat (length ms) < 65535)%N ->
-  abs (play_plies b ms) = fold_left apply (map move_of ms) (abs b) /\ wf_full (play_plies b ms) = true.
+  abs (play_plies b ms) = fold_left apply (map move_of ms) (abs b) /\ wf_rules (play_plies b ms) = true.
 Proof. exact game_refines. Qed.
 
 (* the engine remembers exactly the earlier positions of the game *)
-Fixpoint keys_along (b : Board) (ms : list Ply) : list N :=
-  match ms with [] => [] | m :: t => zkey b :: keys_along (make_move b m) t end.
 Theorem C03_remembers : forall ms b,
   pos_hist (play_plies b ms) = rev (keys_along b ms) ++ pos_hist b.
 Proof. exact remembers_positions. Qed.
